@@ -1,6 +1,8 @@
 """Importable classes for C10's subclass-typed options (class_path = c10_classes.<Name>)."""
 from typing import Optional
 
+from jsonargparse.typing import PositiveInt
+
 
 class Net:
     def __init__(self, width: int = 8):
@@ -66,3 +68,25 @@ class Strict(Plug):
     def __init__(self, c: int = 3):
         super().__init__()
         self.c = c
+
+
+class Worker:
+    def __init__(self, seed: int = 0):
+        self.seed = seed
+
+
+class BrokenWorker(Worker):
+    """its own default does not satisfy its annotation: selecting it is rejected while the class's defaults are applied"""
+
+    def __init__(self, workers: PositiveInt = 0):
+        super().__init__()
+        self.workers = workers
+
+
+
+def double(x: int) -> int:
+    return 2 * x
+
+
+def halve(x: int) -> int:
+    return x // 2
